@@ -734,6 +734,7 @@ int main(int argc, char** argv) {
     vh::Args a = vh::parseArgs(argc, argv);
     vh::installDeathHooks();
     vh::Stats& st = vh::ctx().stats;
+    vh::ctx().shrinkBudget = a.num("shrink", 400);   // a sequence costs ~0.1 s under ASan
     std::cout.rdbuf(new NullBuf);           // readFromFile prints statistics (never freed: cout is flushed at exit)
     std::string tmpBase = a.str("tmp", "/tmp") + "/c19-" + std::to_string((long)getpid());
     bool tolerate = a.str("tolerate") == "stale-path-error";
